@@ -568,11 +568,11 @@ static void stage_deep(void) {
   depths[nd++] = 4 * LIM; if (O.thorough) depths[nd++] = 16 * LIM;
   int unit = 0;
   for (int kind = 0; kind < CH_NKINDS; kind++)
-    for (int leaf = 0; leaf < 3; leaf++)
+    for (int leaf = 0; leaf < 5; leaf++)
       for (size_t di = 0; di < nd; di++, unit++) {
         if (unit % O.nshards != O.shard) continue;
         size_t depth = depths[di];
-        if (leaf && depth > 0) depth -= 1; /* the chunked string is the innermost open level */
+        if ((leaf == 1 || leaf == 2) && depth > 0) depth -= 1; /* the chunked string is the innermost open level */
         vb_reset(&x);
         gen_chain(kind, depth, leaf, &x, NULL);
         run_input(x.p, x.n);
